@@ -73,6 +73,19 @@ ActFails(r, act) ==
               (Len(r.comps) = 1 /\ r.comps[1].name = "teleport") =>
                  /\ \A s \in sup : TeleportRule(r.st, s)
                  /\ (act.full => sup = Teleport(r.st)))
+       \* chains containing the stochastic components: the outcomes are those of the chain for SOME processing
+       \* order of the obstacles (all of them when the harness enumerated every random outcome)
+       \cup W(r, "C11", "C11.chain",
+              (Len(r.comps) > 1 /\ (F.obst \/ F.tele) /\ CountOf(r.comps, "move_obstacles") <= 1
+                 /\ Cardinality(Obstacles(r.st.grid)) <= 3) =>
+                 \E ps \in Perms(Obstacles(r.st.grid)) :
+                    LET so == StepInOrder(r.comps, r.st, act.a, ps)
+                    IN sup \subseteq so /\ (act.full => sup = so))
+       \* C17: the step is a step of the described environment (order-free for the obstacles)
+       \cup W(r, "C17", "C17.step",
+              IF F.obst /\ CountOf(r.comps, "move_obstacles") <= 1 /\ Cardinality(Obstacles(r.st.grid)) <= 3
+                THEN \E ps \in Perms(Obstacles(r.st.grid)) : sup \subseteq StepInOrder(r.comps, r.st, act.a, ps)
+                ELSE F.obst \/ sup \subseteq spec)
        \cup W(r, "DRIFT", "DRIFT.step", sup \subseteq spec /\ (act.full => sup = spec))
        \cup (IF r.rew = <<>> THEN {}
              ELSE UNION {RewardFails(r, act, k) : k \in DOMAIN SupSeq(r, act)})
